@@ -38,6 +38,11 @@ Inductive kind := KList | KSet | KFrozenSet | KDeque | KTuple
 Inductive leafk := LDate | LDecimal | LBytearray.
 
 (* ------------------------------------------------------------------ *)
+(* what a dataclass field falls back to when its key is absent from the decoder's input *)
+Inductive dflt :=
+| DAtom                      (* an immutable default value *)
+| DFresh (k: kind).          (* default_factory=list / dict / set / deque / OrderedDict: a new empty container per call *)
+
 Inductive ty :=
 | TAtom                                  (* int float bool str None-type: packer is the identity *)
 | TLeaf (k: leafk)                       (* leaf with a conversion (isoformat / str / b64) *)
@@ -52,7 +57,9 @@ Inductive ty :=
 | TWrap (t: ty)                          (* Final[t], Annotated[t, ..], NewType over t, PEP 695 alias of t,
                                             Required/NotRequired/ReadOnly[t]: unwrapped and re-dispatched *)
 | TUnion (ts: list ty)                   (* Union / constrained TypeVar *)
-| TNone.                                 (* NoneType as a union member *)
+| TNone                                  (* NoneType as a union member *)
+| TLit                                   (* Literal[...] of int / str values: a generated helper returns the value *)
+| TAbsent (d: dflt).                     (* decode only: a defaulted field whose key is absent from this input *)
 
 Inductive lv :=
 | VAtom (z: Z)
@@ -106,6 +113,7 @@ Inductive ir :=
 | IMapComp (ke ve: ir)             (* {ke: ve for key, value in x.items()} *)
 | ITup (es: list ir)               (* [e0(x[0]), e1(x[1]), ...] *)
 | ICall (c: nat) (fw: bool)        (* x.__mashumaro_to_dict__(dialect=dialect if fw) *)
+| ILit                             (* call of the generated literal packer: returns the value, raises otherwise *)
 | IUnion (idc: list nat) (es: list ir).
      (* union packer method (pack.py pack_union): `if value.__class__ in idc: return value` for the
         members whose packer is the bare name, then `try: return e` for the other members in
@@ -170,6 +178,8 @@ Section Compile.
         if forallb is_id es then IId          (* pack_union: a single "value" packer *)
         else IUnion (flat_map (fun t' => if is_id (cp t') then tid t' else []) ts) es
     | TNone => IId
+    | TLit => ILit
+    | TAbsent _ => IId
     end.
 End Compile.
 
@@ -239,6 +249,7 @@ Fixpoint accepts (v: lv) {struct v} : ir -> bool :=
   fix on_ir (e: ir) {struct e} : bool :=
     match e with
     | IId | IStr => true
+    | ILit => match v with VAtom _ => true | _ => false end
     | IConv => match v with VLeaf _ => true | _ => false end
     | IOpt e' => match v with VNone => true | _ => on_ir e' end
     | ICopy => match v with
@@ -280,6 +291,7 @@ Section RunPack.
       | IId => (v, n)
       | IConv => match v with VLeaf z => (VAtom z, n) | _ => (v, n) end
       | IStr => match v with VLeaf z => (VAtom z, n) | _ => (VAtom 0, n) end
+      | ILit => (v, n)
       | IOpt e' => match v with VNone => (VNone, n) | _ => on_ir e' n end
       | ICopy =>
           match v with
@@ -336,7 +348,7 @@ End RunPack.
    Any, wrapped and NewType members are compared by objects that are never the class of a value) *)
 Definition union_member_ok (t: ty) : bool :=
   match t with
-  | TAtom | TNone | TLeaf _ | TPass | TSeq _ _ | TTupV _ | TTup _ | TMap _ _ _ | TDC _ => true
+  | TAtom | TNone | TLeaf _ | TPass | TSeq _ _ | TTupV _ | TTup _ | TMap _ _ _ | TDC _ | TLit => true
   | _ => false end.
 
 (* runtime classes a value at a position of the given origin may have (abstract origins admit the
@@ -382,6 +394,8 @@ Section Conf.
       | TWrap t' => on_ty t'
       | TUnion ts => forallb union_member_ok ts && existsb on_ty ts
       | TNone => match v with VNone => true | _ => false end
+      | TLit => match v with VAtom _ => true | _ => false end
+      | TAbsent _ => false
       end.
 End Conf.
 
@@ -441,7 +455,7 @@ Section ConvFree.
     | TTupV _ | TTup _ | TDC _ => false
     | TWrap t' => conv_free t'
     | TUnion ts => forallb conv_free ts
-    | TNone => true
+    | TNone | TLit | TAbsent _ => true
     end.
 
   (* the generator's test: the element expression is the bare name *)
@@ -492,7 +506,7 @@ Section ByRef.
           | _ => [] end
       | TWrap t' => on_ty t'
       | TUnion ts => pick (fun t' => conforms E v t') on_ty [] ts     (* the member the value belongs to *)
-      | TNone => []
+      | TNone | TLit | TAbsent _ => []
       end.
 End ByRef.
 
@@ -519,7 +533,7 @@ Section UDet.
     fun call N hsup =>
     fix on_ty (t: ty) {struct t} : bool :=
       match t with
-      | TAtom | TLeaf _ | TAny | TPass | TNone => true
+      | TAtom | TLeaf _ | TAny | TPass | TNone | TLit | TAbsent _ => true
       | TOpt t' => match v with VNone => true | _ => on_ty t' end
       | TWrap t' => on_ty t'
       | TSeq _ t' | TTupV t' =>
@@ -558,7 +572,8 @@ Inductive uir :=
 | UMap (k: kind) (ke ve: uir)      (* {..}, OrderedDict({..}), defaultdict(f, {..}), Counter({..}) *)
 | UTup (es: list uir)              (* tuple([e0(x[0]), ...]) *)
 | UCall (c: nat)                   (* C.__mashumaro_from_dict__(value) *)
-| UUnion (ms: list (nat * uir)).   (* union method: the member whose wire class fits decodes the value *)
+| UUnion (ms: list (nat * uir))    (* union method: the member whose wire class fits decodes the value *)
+| UDefault (d: dflt).              (* key absent: the constructor supplies the default / calls the factory *)
 
 (* wire classes by which the members of a union are told apart: scalars are matched by
    exact type, a mapping is not iterated as a list (.items()), a list has no .items() *)
@@ -572,8 +587,9 @@ Fixpoint tcls (t: ty) : nat :=
   | TSeq _ _ | TTupV _ | TTup _ => 2
   | TMap _ _ _ | TDC _ => 3
   | TAny | TPass => 9          (* accepts everything *)
-  | TUnion _ => 7              (* typing flattens nested unions: never a direct member *)
+  | TUnion _ | TAbsent _ => 7  (* typing flattens nested unions: never a direct member *)
   | TNone => 1
+  | TLit => 0
   end.
 Definition cls_fits (c: nat) (w: lv) : bool := Nat.eqb c 9 || Nat.eqb c (wcls w).
 
@@ -606,7 +622,8 @@ Fixpoint cu (t: ty) : uir :=
   | TDC c => UCall c
   | TWrap t' => cu t'
   | TUnion ts => UUnion (map (fun t' => (tcls t', cu t')) ts)
-  | TNone => UAtom
+  | TNone | TLit => UAtom
+  | TAbsent d => UDefault d
   end.
 
 Section RunUnpack.
@@ -655,6 +672,13 @@ Section RunUnpack.
           pick (fun ce : nat * uir => match ce with (c, _) => cls_fits c w end)
                (fun ce : nat * uir => match ce with (_, e') => on_ir e' n end)
                (VNone, n) ms
+      | UDefault d =>
+          match d with
+          | DAtom => (VAtom 0, n)
+          | DFresh k => match k with
+                        | KDict | KOrderedDict | KDefaultDict | KCounter => (VMap k n [], S n)
+                        | _ => (VSeq k n [], S n) end
+          end
       end.
 
   (* wire conformance: the basic form a decoder of type t accepts *)
@@ -682,6 +706,8 @@ Section RunUnpack.
       | TWrap t' => on_ty t'
       | TUnion ts => pick (fun t' => cls_fits (tcls t') w) on_ty false ts
       | TNone => match w with VNone => true | _ => false end
+      | TLit => match w with VAtom _ => true | _ => false end
+      | TAbsent _ => true
       end.
 
   (* input sub-values at Any / pass_through positions *)
@@ -708,7 +734,7 @@ Section RunUnpack.
           | _ => [] end
       | TWrap t' => on_ty t'
       | TUnion ts => pick (fun t' => cls_fits (tcls t') w) on_ty [] ts
-      | TNone => []
+      | TNone | TLit | TAbsent _ => []
       end.
 End RunUnpack.
 
